@@ -506,8 +506,11 @@ impl Engine for C12 {
                     .map_err(|x| format!("{} executed through {}: {x}", basic::describe_step(prog, i), exe_name(exes[e])))?;
                 norm.push((normalise(&r.out, &models[e], &explicit_times), r.out));
             }
+            // (how many bytes ONE read delivers is the runtime's business: streams that stop after
+            // one read are not compared)
+            let one_read = matches!(&step.op, Op::Stream { bufs, .. } if matches!(bufs.first(), Some(&m) if m == usize::MAX - 2 || m == usize::MAX - 3));
             for e in 1..3 {
-                if norm[e].0 != norm[0].0 {
+                if norm[e].0 != norm[0].0 && !one_read {
                     return Err(format!(
                         "{}: the flavours disagree: {} gives {} but {} gives {}",
                         basic::describe_step(prog, i),
